@@ -395,9 +395,11 @@ func runC12(c *Ctx) {
 		{"one.F3", one, vrt.Budget{F: 3}, cut},
 		{"N2.F2", two, vrt.Budget{F: 2}, cut},
 		{"manual.one.F2", one, vrt.Budget{F: 2}, cut},
+		{"repeat-pubrec.one.F2", one, vrt.Budget{F: 2}, cut},
 	}
 	if c.Thorough() { // after the quick families
 		fams = append(fams, []fam{
+			{"repeat-pubrec.N2.F2", two, vrt.Budget{F: 2}, cut},
 			{"manual.one.F3", one, vrt.Budget{F: 3}, cut},
 			{"manual.N2.F2", two, vrt.Budget{F: 2}, cut},
 			{"one.F4", one, vrt.Budget{F: 4}, cut},
@@ -420,7 +422,7 @@ func runC12(c *Ctx) {
 					Bound: f.bound,
 					Cfg:   vrt.Config{Horizon: int64(600 * time.Second)},
 					Body: func() {
-						rcExecuteInto(&rcCfg{Reqs: reqs, Faults: f.faults, KeepSession: sess.keep, AlwaysResub: sess.always, Manual: strings.HasPrefix(f.name, "manual.")}, &run)
+						rcExecuteInto(&rcCfg{Reqs: reqs, Faults: f.faults, KeepSession: sess.keep, AlwaysResub: sess.always, Manual: strings.HasPrefix(f.name, "manual."), RepeatPubRec: strings.HasPrefix(f.name, "repeat-pubrec.")}, &run)
 						if run.connectOK {
 							c12Oracle(run.net, func(k string) string { return k + ":faults=" + run.faultKinds() }, run.summary)
 						}
